@@ -183,6 +183,9 @@ def end_to_end(ck, rng, thorough):
                 files.append(('pel_%d_%08X_failing_parsers' % (rnd, 0x50000A00 + rnd), pelbuild.pel([pelbuild.UH(), pelbuild.UD(b'abc', sub=7, comp=0x2222), pelbuild.UD(b'def', sub=7, comp=0x3333),
                                                                            pelbuild.UD(b'ghi', sub=7, comp=0x1111), pelbuild.ED(b'jkl', creator=b'x', sub=7, comp=0x2222)],
                                                                           eid=0x50000A00 + rnd, creator=b'x')))
+            if rnd % 2 == 0:
+                # a log whose decoding fails in an unusual way (JSON user data nested past the interpreter's recursion limit), listed in the middle
+                files.append(('pel_%d_1_deep' % rnd, pelbuild.pel([pelbuild.UH(), pelbuild.SRC(), pelbuild.UD(b'[' * 1200 + b']' * 1200, sub=1)], eid=0x50000C00 + rnd)))
             # files that cannot be decoded, listed between / after the good ones: they must not change what is printed for the list
             files.append(('pel_%d_0_cut' % rnd, files[0][1][:rng.choice([47, 60, 100])]))
             files.append(('pel_%d_zz_cut' % rnd, files[-2][1][:rng.choice([49, 73, 120])]))
